@@ -52,6 +52,10 @@ pub enum CStep {
     Close,
     /// abortive close
     Reset,
+    /// close the connection, unless the server has already ended its side (the client has seen
+    /// end of stream or a reset): then the client leaves its socket open for the rest of the run.
+    /// A connection that the server has ended has ended; its slot must not wait for the client
+    CloseUnlessEnded,
     /// keep reading until end of stream or reset
     ReadToEof,
     /// keep reading until end of stream, reset, or this many microseconds have passed
